@@ -95,6 +95,9 @@ package lnwire
 //@   loop * havoc
 //@   bounds-safe
 //@   site make: assert 0 <= arg(len) && arg(len) <= 65535
+//@   // the signature list is the one allocation whose elements are not bytes: its count is bounded by what a message can carry (64 bytes
+//@   // per signature on the wire: at most 1023), so the allocation stays within a small multiple of the message bound (finding F43)
+//@   site make nth 0 as sig-count-fits-a-message: assert arg(len) * 64 <= 65533
 //@
 //@ func ReadMessage
 //@   props C10
